@@ -16,7 +16,7 @@ def run(tier, seed):
     rep = vlib.Report(PROP, tier, seed, "model_checking")
     wd = vlib.workdir("c01")
     try:
-        mc = xc.mc_bv(wd, tier)
+        mc = xc.mc_bv(wd, tier, deep=True)
         q = tier == "quick"
         res = xc.judge(rep, "data", 16 if q else 300, seed, wd, "d", OWNS, jobs=8 if q else 14)
         rep.cov["samples"] = [{"family": "data", "forms": len({d[0] for d in res.distinct}), "example": sorted(res.distinct)[:3]}]
